@@ -9,6 +9,9 @@ propagator, the SpanContext copy constructors and sibling edits of TraceState va
         walk: w=<members visited>
   scops <gen> <xtid> <xsid> <flags> <remote> <members> | tid <x> | sid <x> | fl <n> | rem <0|1> | ts <members> | sampled <0|1>
         => builderr | <d0> | <d1> | … ; d = <xtid>:<xsid>:<flags>:<remote>:<xtsString>:<valid>:<sampled>:<Equal(previous)>
+  idjson <gen> <xtid> <xsid> <flags> <remote> <members> => builderr | <xTraceID.String> <xSpanID.String> <xTraceFlags.String>
+        <x TraceID json> <x SpanID json> <x TraceFlags json> <x TraceState json> <x SpanContext json>
+        <TraceIDFromHex(String()) ok:<x>|err> <SpanIDFromHex(String()) ok:<x>|err>
   carrier <gen> m|h | set <xk> <xv> | get <xk> | add <xk> <xv> | raw <xk> <xv,…|-> | keys … => - | v:<xv> | k:<xk,…|-> …
   composite <gen> m|h <order> <xtid> <xsid> <flags> <remote 0|1|n> <members> <presets> <tags>
         => <carrier dump> | none|<xtid> <xsid> <flags> <remote> <xtsString> | <tag reads> | <fields>
@@ -16,6 +19,7 @@ propagator, the SpanContext copy constructors and sibling edits of TraceState va
 -/
 import Otel.C03.Spec
 import Otel.C03.Carrier
+import Otel.C03.SpecDeep
 open Otel Otel.Wire Otel.C03
 
 namespace Otel.C03.Drv2
@@ -362,6 +366,36 @@ def stepDeep (toks : List String) : Option Verdict :=
         | none, _ => verdict "builderr" obs (obs == ["builderr"] && !decide (TSInv members)) false "sc-builderr"
         | _, none => none)
      | _, _, _, _ => none)
+  | ["idjson", _, tid, sid, fl, rem, mem] =>
+    (match parseHex tid, parseHex sid, fl.toNat?, parseMembers mem with
+     | some tb, some sb, some f, some members =>
+       (match buildTS members with
+        | none => verdict "builderr" obs (obs == ["builderr"] && !decide (TSInv members)) false "idjson-builderr"
+        | some ts =>
+          let sc : SpanCtx := { tid := tb, sid := sb, flags := UInt8.ofNat f, ts := ts, remote := rem == "1" }
+          let fromHex := fun (n : Nat) (b : Bytes) => match idFromHex n (idString b) with
+            | some t => s!"ok:{hexOf t}" | none => "err"
+          let ms := s!"{hexOf (idString tb)} {hexOf (idString sb)} {hexOf (hexEncode [sc.flags])} {hexOf (idJSON tb)} {hexOf (idJSON sb)} {hexOf (flagsJSON sc.flags)} {hexOf (tsJSON ts)} {hexOf (scJSON sc)} {fromHex 32 tb} {fromHex 16 sb}"
+          let spec := match obs with
+            | [ts', ss', fs', tj, sj, fj, tsj, scj, th, sh] =>
+              (match parseHex ts', parseHex ss', parseHex fs', parseHex tj, parseHex sj, parseHex fj, parseHex tsj, parseHex scj with
+               | some tsb, some ssb, some fsb, some tjb, some sjb, some fjb, some tsjb, some scjb =>
+                 W3C.hexField 32 tsb && hexEncode tb == tsb && W3C.hexField 16 ssb && hexEncode sb == ssb &&
+                 W3C.hexField 2 fsb && hexEncode [UInt8.ofNat f] == fsb &&
+                 jsonDecode tjb == some tsb && jsonDecode sjb == some ssb && jsonDecode fjb == some fsb &&
+                 (match jsonDecode tsjb with
+                  | some body => W3C.decodeTS body == members && tsStrOK body
+                  | none => false) &&
+                 scjb == asc "{\"TraceID\":" ++ tjb ++ asc ",\"SpanID\":" ++ sjb ++ asc ",\"TraceFlags\":" ++ fjb ++
+                   asc ",\"TraceState\":" ++ tsjb ++ asc ",\"Remote\":" ++ (if rem == "1" then asc "true" else asc "false") ++ asc "}" &&
+                 th == (if nonZero tb then s!"ok:{hexOf tb}" else "err") &&
+                 sh == (if nonZero sb then s!"ok:{hexOf sb}" else "err")
+               | _, _, _, _, _, _, _, _ => false)
+            | _ => false
+          verdict ms obs spec true
+            ((if nonZero tb then "idjson-tid" else "idjson-tid0") ++ (if nonZero sb then ",idjson-sid" else ",idjson-sid0") ++
+             (if (tsString ts).any (fun c => c == 0x22 || c == 0x5c || c == 0x3c || c == 0x3e || c == 0x26) then ",idjson-esc" else "")))
+     | _, _, _, _ => none)
   | "carrier" :: _ :: kind :: rest =>
     let opToks := match rest with | "|" :: r => groups r | _ => []
     (match opToks.mapM parseCarOp with
@@ -396,7 +430,10 @@ def stepDeep (toks : List String) : Option Verdict :=
           let frame := usedTags.all (fun k => !same k tpKey && !same k tsKey)
           let applies := hasT && frame && rem != "n" && idsValid tb sb && decide (TSInv members) && (!members.isEmpty || !out.tsPreset)
           let spec := match groups obs with
-            | [_, ex, _, _] =>
+            | [d, ex, rd, fd] =>
+              -- zero members: nothing happens (composite_empty_and_singleton); no TraceContext member: the span stays
+              (ord.isEmpty → (d == [renderDump out.dump] && ex == ["none"] && rd == ["-"] && fd == ["-"])) &&
+              (!hasT → ex == ["none"]) &&
               if applies then
                 (match ex with
                  | [etid, esid, efl, erem, etss] =>
